@@ -36,6 +36,7 @@ type concBehaviour struct {
 	Pre     []storeOp   `json:"pre"`
 	Threads [][]storeOp `json:"threads"`
 	Repeat  int         `json:"repeat"`
+	Burst   int         `json:"burst"` // > 0: that many goroutines each deliver once to the (not yet existing) mailbox Names[1] at the same moment
 }
 
 type concInput struct {
@@ -115,6 +116,37 @@ func runConcHistory(w *tr.Writer, b concBehaviour, rep int, seed int64, scratch 
 		}
 		snapInto(ev)
 		w.Emit(ev)
+	}
+	if b.Burst > 0 {
+		// first touch: all goroutines deliver to a mailbox nobody has used yet; one event records every result
+		ps := make([]prepared, b.Burst)
+		for i := range ps {
+			ps[i] = prep(storeOp{Op: "add", Mb: 1, Meta: 1, Size: 300})
+		}
+		type dres struct {
+			ID   string  `json:"id"`
+			R    string  `json:"r"`
+			Size int     `json:"size"`
+			Meta tr.Meta `json:"meta"`
+		}
+		out := make([]dres, b.Burst)
+		startB := make(chan struct{})
+		var wgB sync.WaitGroup
+		for i := range ps {
+			wgB.Add(1)
+			go func(i int) {
+				defer wgB.Done()
+				<-startB
+				id, err := st.AddMessage(ps[i].d)
+				out[i] = dres{ID: id, R: errClass(err), Size: len(ps[i].body), Meta: ps[i].meta}
+			}(i)
+		}
+		close(startB)
+		wgB.Wait()
+		ev := tr.Ev{"a": "burst", "t": hid, "mb": b.Names[1], "adds": out}
+		snapInto(ev)
+		w.Emit(ev)
+		return
 	}
 	// concurrent phase: everything the goroutines need is prepared beforehand
 	plans := make([][]prepared, len(b.Threads))
